@@ -33,9 +33,9 @@ let fmt_qres r =
 
 let handle kind a =
   match kind with
-  | "idx" -> Some (fmt_index (index_file (bytes_of_hex a.(0))))
+  | "idx" | "idxw" -> Some (fmt_index (index_file (bytes_of_hex a.(0))))
   | "qb" when a.(1) <> "c0" -> None   (* source-chunking dependent, see harness *)
-  | "q" | "qb" ->
+  | "q" | "qb" | "qw" ->
       let f = bytes_of_hex a.(0) in
       Some (String.concat "," (List.map fmt_qres (index_and_query_many f (parse_regions a.(2)))))
   | "wr" ->
